@@ -98,6 +98,9 @@ void drv_c13s(int tier, unsigned long seed, const char *extra) {
     }
     callf("mpf_get_default_prec"); callf("mpf_set_default_prec", (uint64_t)(64 + rnd_below(500))); callf("mpf_get_default_prec");
     callf("mpf_inits", 3, 4, 5); callf("mpf_set_ui", 4, (uint64_t)7); callf("mpf_get_prec", 3);
+    /* the initialise-and-set forms take the default precision in force: a longer operand is truncated to it */
+    callf("mpf_clears", 3, 4, 5); callf("mpf_init", 3); callf("mpf_init_set", 4, 0); callf("mpf_init_set_ui", 5, (uint64_t)rnd64()); callf("mpf_add", 3, 4, 5);
+    callf("mpf_clear", 4); callf("mpf_init_set_si", 4, (int64_t)rnd64()); callf("mpf_clear", 5); callf("mpf_init_set_d", 5, -1234.5678e20); callf("mpf_mul", 3, 4, 5);
     callf("gmp_randinit_default", 0); callf("gmp_randseed_ui", 0, (uint64_t)(seed + x));
     for (j = 0; j < 6; j++) { callf("mpf_rrandomb", 3 + j % 3, 0, (int64_t)((long)rnd_below(15) - 7), (int64_t)rnd_below(20)); callf("mpf_get_d", 3 + j % 3); }
     callf("mpf_rrandomb", 3, 0, (int64_t)0, (int64_t)3); callf("mpf_rrandomb", 4, 0, (int64_t)-200, (int64_t)0);
